@@ -237,6 +237,15 @@ OpSort(x) ==
      THEN h' = DefMut(Alloc(h, o.kind, sorted, Len(sorted)), VRef(NewId(h)), what)
      ELSE h' = DefMut([h EXCEPT !.back[o.b] = [k \in 1..Len(@) |-> IF k > o.off /\ k <= o.off + o.len THEN sorted[k - o.off] ELSE @[k]]],
                       h.glob[x], what)
+\* (apply (lambda (&rest xs) (stable-sort < xs)) L) and, with skip = 1, (apply (lambda (a &rest xs) (stable-sort < xs)) L):
+\* the elements of L reach an in-place sort as the &rest list of a function - the arguments of a call are a list of
+\* their own, so L (and whatever L is a view of) is NOT changed
+OpApplySort(x, skip) ==
+  /\ IsObj(h, x) /\ G(h, x).kind = "list" /\ AllInts(SeqCells(h, x)) /\ Len(SeqCells(h, x)) >= skip
+  /\ LET cs == SeqCells(h, x)  rest == ISort(SubSeq(cs, skip + 1, Len(cs)))
+         what == Op("applysort", "list", <<>>, x, 0, skip, 0, "", FALSE) IN
+     IF Len(rest) = 0 THEN h' = DefNil(h, what)
+     ELSE h' = Def(Alloc(h, "list", rest, Len(rest)), NewId(h), what)
 
 \* -------------------------------------------------------------- sorted maps
 \* keys are identified by NAME, given as string or as symbol; the spelling shown for a key becomes
@@ -284,6 +293,7 @@ Next ==
      \/ \E k \in KINDS, x \in 1..NG : OpReverse(k, x)
      \/ \E k \in KINDS, x \in 1..NG, i \in 0..2, a \in ARG1 : OpInsert(k, x, i, a)
      \/ \E nm \in {"map", "select", "reject"}, k \in KINDS, x \in 1..NG : OpMapLike(nm, k, x)
+     \/ \E x \in 1..NG, skip \in 0..1 : OpApplySort(x, skip)
      \/ \E k \in KINDS, x \in 1..NG, y \in 1..NG : OpZip(k, x, y)
      \/ \E k \in KINDS, x \in 1..NG, a \in ARG1 : OpInsertSorted(k, x, a)
      \/ \E x \in 1..NG, as \in ARGS : OpAppendBang(x, as)
